@@ -162,3 +162,124 @@ def base_pool(win, rich=False):
         if s not in seen:
             seen.add(s); res.append(s)
     return res
+
+# ---------------------------------------------------------------- boundary values
+# Inputs a sampler over short strings and moderate random paths does not reach: sizes and counts around powers
+# of two, every byte value in every structural position, every drive letter, the reserved device names the
+# crate itself lists, long separator runs, ".." and forbidden bytes at block boundaries.  Generic boundary-value
+# heuristics, fixed (no randomness), the same for every property.
+B_LENGTHS = [15, 16, 17, 31, 32, 33, 63, 64, 65, 127, 128, 129, 255, 256, 257]
+B_COUNTS = [7, 8, 9, 10, 15, 16, 17, 18, 31, 32, 33, 34]
+RESERVED = ['CON', 'PRN', 'AUX', 'NUL'] + ['COM%d' % i for i in range(10)] + ['LPT%d' % i for i in range(10)]
+
+
+def _seps(win):
+    return [b'\\', b'/'] if win else [b'/']
+
+
+def boundary_names():
+    """single names of boundary lengths, with and without extensions"""
+    out = []
+    for n in B_LENGTHS:
+        out.append(b'n' * n)
+        out.append(b'x' * (n - 4) + b'.txt')            # total length n, short extension
+        out.append(b'a.' + b'e' * (n - 2))              # total length n, long extension
+        out.append(b's' * (n // 2) + b'.' + b't' * (n - n // 2 - 1))
+    return out
+
+
+def boundary_paths(win):
+    out = []
+    sp = _seps(win)
+    s0 = sp[0]
+    heads = [b'', s0] + ([b'C:', b'C:\\', b'\\\\?\\C:\\', b'\\\\?\\UNC\\s\\sh\\', b'\\\\s\\sh\\', b'\\\\.\\dev\\', b'\\\\?\\pic\\'] if win else [])
+    # 1. long names in several positions
+    for nm in boundary_names():
+        out += [nm, s0 + nm, nm + s0 + b'x', b'a' + s0 + nm + s0 + b'b', nm + s0, nm + s0 + b'.']
+        if win:
+            out += [b'C:' + nm, b'C:\\' + nm + b'\\t', b'\\\\?\\C:\\' + nm, b'\\\\' + nm + b'\\sh\\d', b'\\\\s\\' + nm + b'\\d', b'\\\\.\\' + nm]
+    # 2. deep paths
+    for k in B_COUNTS:
+        comps = [b'd%d' % i for i in range(1, k + 1)]
+        for hd in heads:
+            for s in sp:
+                if hd.startswith(b'\\\\?\\') and s == b'/':
+                    continue
+                body = s.join(comps)
+                out += [hd + body, hd + body + s + b'..', hd + body + s + b'..' + s + b'x', hd + body + s, hd + s.join(comps[:-1] + [b'..', comps[-1]])]
+    # 3. separator runs
+    for r in range(2, 10):
+        for s in sp:
+            out += [b'a' + s * r + b'b', s * r, b'a' + s * r, s * r + b'a', b'a' + s * r + b'.' + s * r + b'b']
+    # 4. every byte value in every structural position
+    for v in range(256):
+        c = bytes([v])
+        out += [c, b'a' + c, c + b'a', b'a' + s0 + c + b'b', b'ab' + c + b'cd' + s0 + b'x', c + s0 + b'x', b'x' + s0 + c,
+                b'long-name-' + c + b'-tail.ext', b'dir' + s0 + b'name.' + c]
+        if win:
+            out += [c + b':', c + b':x', c + b':\\x', b'\\\\?\\' + c + b':\\x', b'\\\\?\\' + c + b':', b'\\\\' + c + b'\\sh\\x', b'\\\\.\\' + c, b'\\\\?\\' + c + b'\\x']
+    # 5. every drive letter
+    if win:
+        for v in list(range(65, 91)) + list(range(97, 123)):
+            c = bytes([v])
+            out += [c + b':', c + b':rel', c + b':\\abs', c + b':/abs', b'\\\\?\\' + c + b':\\v', b'\\\\?\\' + c + b':', b'x\\' + c + b':', c + b':..\\x']
+    # 6. the reserved device names, as names, stems, devices
+    for nm in RESERVED:
+        for form in (nm, nm.lower(), nm.capitalize()):
+            f = form.encode()
+            out += [f, f + b'.txt', b'dir' + s0 + f, b'dir' + s0 + f + b'.tar.gz', f + s0 + b'x', s0 + f]
+            if win:
+                out += [b'\\\\.\\' + f, b'\\\\.\\' + f + b'\\x', b'C:\\' + f, b'C:' + f + b'.log', b'\\\\?\\' + f, b'\\\\' + f + b'\\' + f]
+    # 7. numeric-looking and odd names
+    for nm in (b'0', b'1', b'007', b'123.456', b'-1', b'1e9', b'+', b'~', b'~1', b'a b', b' ', b' a', b'a ', b'a.', b'..a', b'...', b'a..b', b'.a.'):
+        out += [nm, b'd' + s0 + nm, nm + s0 + b'f', s0 + nm]
+    # 8. ".." and a forbidden byte at block boundaries: padding of "." segments / a run of name bytes before them
+    for n in B_LENGTHS:
+        pad = (b'.' + s0) * (n // 2)
+        for off in (n - 1, n, n + 1):
+            p = pad[:off]
+            if p and p[-1:] != s0:
+                p = p[:-1] + s0
+            out += [p + b'..' + s0 + b'x', b'a' + s0 + p + b'..', p + b'..']
+        for bad in ((b'|', b'?', b':', b'*', b'\x00') if win else (b'\x00',)):
+            out += [b'r' * n + bad + b'xyz', b'd' + s0 + b'r' * (n - 1) + bad, b'r' * (n + 1) + bad + s0 + b'f']
+    # 9. multi-byte characters around the same boundaries
+    for n in (7, 8, 9, 15, 16, 17, 31, 32, 33, 63, 64, 65):
+        for ch in ('\u00e9', '\u00af', '\u013c', '\u20ac', '\u4e2a', '\U0001F33A'):
+            e = ch.encode()
+            out += [e * n, b'a' * n + e, b'd' + s0 + e * n + b'.' + e, b'x' * (n - 1) + e + s0 + b'y', e + b'.' + e * n]
+    seen, res = set(), []
+    for s in out:
+        if s not in seen and len(s) <= 1200:
+            seen.add(s); res.append(s)
+    return res
+
+
+def boundary_pairs(win):
+    """(a, b): boundary bases with a few arguments, and ordinary bases with boundary arguments"""
+    sp = _seps(win)
+    s0 = sp[0]
+    bp = boundary_paths(win)
+    small_b = [b'x', b'..' + s0 + b'x', b'..', b'a' + s0 + b'b', b'.', b'', b'x.y', b'n' * 40, s0 + b'r']
+    small_a = [b'', b'base', s0 + b'srv' + s0 + b'jail', b'a' + s0 + b'b' + s0] + ([b'C:', b'C:\\d', b'\\\\?\\C:\\d', b'\\\\s\\sh', b'Z:', b'z:'] if win else [])
+    out = []
+    for a in bp:
+        if len(a) <= 400:
+            for b in small_b[:5]:
+                out.append((a, b))
+    for a in small_a:
+        for b in bp:
+            if len(b) <= 400:
+                out.append((a, b))
+    # a path against itself and against its own re-spellings / prefixes (equality, ordering, prefix relations)
+    for a in bp:
+        if 8 <= len(a) <= 400:
+            out.append((a, a))
+            out.append((a, a.replace(s0, s0 + b'.' + s0, 1)))
+            out.append((a, a + s0))
+            cut = a.rfind(s0)
+            if cut > 0:
+                out.append((a, a[:cut]))
+                out.append((a, a[cut + 1:]))
+                out.append((a, a[a.find(s0) + 1:]))
+    return out
